@@ -354,4 +354,23 @@ def afterUse (m : LoopMode) (jn : JidNorm) (frm : Form) (sets : List (String × 
     (sets.map (fun p => Op.set p.1 p.2) ++ frm.fields.map (fun f => Op.get f.var) ++ [.submit, .submit])
   encodeForm jn s.frm []
 
+/-! ### the typed getters (`GetString`, `GetStrings`, `GetBool`, `GetJID`, `GetJIDs`) -/
+
+inductive Kind
+  | str | strs | bool | jid | jids
+  deriving DecidableEq, Repr
+
+def kindOf : Val → Kind
+  | .str _ => .str
+  | .strs _ => .strs
+  | .bool _ => .bool
+  | .jid _ => .jid
+  | .jids _ => .jids
+
+/-- `Get` followed by a type assertion; when either fails the zero value and `false` -/
+def getTyped (k : Kind) (jn : JidNorm) (f : Form) (vals : Vals) (id : String) : Option Val × Bool :=
+  match get jn f vals id with
+  | (some v, true) => if kindOf v = k then (some v, true) else (none, false)
+  | _ => (none, false)
+
 end XmppModel.Form
